@@ -17,7 +17,8 @@
   (`GapThresholds τ`; `τ = 2⁻¹³` does with the defaults: cholesky compares SQUARED `S`-norms with
   `s_tol = 2⁻²⁶`, hence `s_tol ≤ τ²`).
 
-  What is NOT covered: svd (the factorisation is a certificate, `SvdCert.unamb` is part of it; the
+  What is NOT covered: svd (its first-stage premise is `Svd.Unambiguous tol W` on the singular values
+  `Svd.decompose` returns — the only field of `SvdCert` that is not proved, `C01_svd_decompose_svdcert`; the
   acceptance of its subset test under the same margin is `C20_svd_subset_refusal` (d)); the case
   "`S` does not resolve" of the second stages (there the tested norm is exactly 0 in exact
   arithmetic, which no gap on `A` alone expresses: cholesky/envelope refuse then WITHOUT any
